@@ -12,6 +12,9 @@ Proof. vm_compute. reflexivity. Qed.
 Lemma balance_holds : balance_ok dagsync_funcs = true.
 Proof. vm_compute. reflexivity. Qed.
 
+Lemma handle_callers_hold : handle_callers_ok dagsync_funcs = true.
+Proof. vm_compute. reflexivity. Qed.
+
 Lemma handlers_mutex_holds : handlers_mutex_ok dagsync_funcs = true.
 Proof. vm_compute. reflexivity. Qed.
 
@@ -24,6 +27,9 @@ Example balance_rejects_leak :
 Proof. vm_compute. reflexivity. Qed.
 Example nonblocking_rejects_send :
   balanced_nonblocking c08_env 300 [SLock "s.handlersMutex"; SSend "ch"; SUnlock "s.handlersMutex"] = false.
+Proof. vm_compute. reflexivity. Qed.
+Example handle_callers_rejects_other_lock :
+  locked_before_handle false (flat [SLock "hnd.entMutex"; SCall "handle"; SUnlock "hnd.entMutex"]) = false.
 Proof. vm_compute. reflexivity. Qed.
 Example spawned_finds_goroutine : List.length (spawned expected_watch) = 1.
 Proof. vm_compute. reflexivity. Qed.
